@@ -4,6 +4,7 @@ import (
 	"context"
 	"fmt"
 	"reflect"
+	"strings"
 	"sync"
 	"testing"
 	"time"
@@ -214,6 +215,82 @@ func TestC10(t *testing.T) {
 				map[string]any{"payload": before})
 		}
 		run.Eval(fmt.Sprintf("allnone-eventinfo|%v|%q", withWrapper, ip.id))
+	}
+	// the forwarded event's format table is its own: whatever a later node stores on the forwarded event does not
+	// appear on the event the filter was given (which other pipelines still hold), and vice versa - for a nil, an
+	// empty and a filled table
+	nfmt := run.N(600, 12000)
+	for i := 0; i < nfmt && !run.Stop(); i++ {
+		cr := r.Fork()
+		cfg := genCfgEnc(cr)
+		pc := genPayload(cr.Uint64(), cfg)
+		var table map[string][]byte
+		kind := rt.Pick(cr, []string{"nil", "empty", "filled"})
+		switch kind {
+		case "empty":
+			table = map[string][]byte{}
+		case "filled":
+			table = map[string][]byte{"pre": []byte("formatted")}
+		}
+		ev := &eventlogger.Event{Type: "t", CreatedAt: created, Formatted: table, Payload: pc.Payload}
+		res := callProcess(buildFilter(cfg), ev)
+		if res.Panic != "" || res.Err != nil || res.Out == nil || res.Out == ev {
+			continue // refused, or forwarded as the very event (all-none): nothing to isolate
+		}
+		n0 := len(ev.Formatted)
+		res.Out.FormattedAs("stored-by-a-later-node", []byte("x"))
+		ev.FormattedAs("stored-on-the-original", []byte("y"))
+		_, leakedBack := ev.Format("stored-by-a-later-node")
+		_, leakedFwd := res.Out.Format("stored-on-the-original")
+		if leakedBack || leakedFwd || len(ev.Formatted) != n0+1 {
+			run.Violation("shape:aliased:format-table", fmt.Sprintf("the forwarded event shares its format table (%s on input) with the event the filter was given: a value stored on the forwarded event is visible on the original: %v, the other way round: %v", kind, leakedBack, leakedFwd),
+				map[string]any{"config": cfg.String(), "table_on_input": kind})
+		}
+		run.Eval("fmt-table|" + kind)
+	}
+	// a node that is reconfigured between events (the exported FilterOperationOverrides are replaced): the
+	// configuration in force when an event arrives decides
+	nrec := run.N(200, 4000)
+	for i := 0; i < nrec && !run.Stop(); i++ {
+		cr := r.Fork()
+		type sp struct {
+			Pub string `class:"public"`
+			Sec string `class:"secret"`
+			Un  string
+		}
+		none := map[encrypt.DataClassification]encrypt.FilterOperation{
+			encrypt.PublicClassification: encrypt.NoOperation, encrypt.SensitiveClassification: encrypt.NoOperation, encrypt.SecretClassification: encrypt.NoOperation}
+		f := &encrypt.Filter{Wrapper: cryp.NewWrapper(cr.Bytes(32), "k")}
+		order := rt.Pick(cr, []string{"default,none,default", "none,default,none", "default,none", "none,default"})
+		var hist []string
+		for _, c := range strings.Split(order, ",") {
+			if c == "none" {
+				f.FilterOperationOverrides = none
+			} else {
+				f.FilterOperationOverrides = nil
+			}
+			in := &sp{Pub: "pub", Sec: "SECRETCANARY", Un: "UNCLASSIFIEDCANARY"}
+			out, err := f.Process(context.Background(), &eventlogger.Event{Type: "t", CreatedAt: created, Payload: in})
+			hist = append(hist, c)
+			if err != nil || out == nil {
+				run.Violation("shape:refused:reconfigured", fmt.Sprintf("Process failed after the node was reconfigured (%v): %v", hist, err), nil)
+				break
+			}
+			got, _ := out.Payload.(*sp)
+			if got == nil {
+				run.Violation("shape:type-changed", fmt.Sprintf("output payload type %T", out.Payload), nil)
+				break
+			}
+			if c == "none" && (*got != sp{Pub: "pub", Sec: "SECRETCANARY", Un: "UNCLASSIFIEDCANARY"}) {
+				run.Violation("shape:not-forwarded-unchanged", fmt.Sprintf("with every operation overridden to none (configuration history %v on one node) the event must be forwarded unchanged, got %+v", hist, *got), nil)
+				break
+			}
+			if c == "default" && (got.Pub != "pub" || got.Sec == "SECRETCANARY" || got.Un == "UNCLASSIFIEDCANARY") {
+				run.Violation("shape:public-not-preserved", fmt.Sprintf("with the default operations (configuration history %v on one node) public values are kept and the others protected, got %+v", hist, *got), nil)
+				break
+			}
+		}
+		run.Eval("reconfigured|" + order)
 	}
 	// root structs passed by value: input untouched, no shared memory with what is forwarded
 	nbv := run.N(3000, 60000)
